@@ -2,6 +2,7 @@ import CifModel.Lemmas.StoreWorld
 import CifModel.Model.StoreSchema
 import CifModel.Spec.DataModel
 import CifModel.Lemmas.StoreRefine
+import CifModel.Lemmas.StoreRefineQ
 /-
   Property C04 — the managed CIF behaves as the documented data model under any API history.
 
@@ -668,6 +669,19 @@ theorem C04_add_packet_is_spec_packet (norm : Str → Str) (d : Db) (x : LoopRow
     packetFor d x.cid x.loopNum pkt =
       (absLoop d x).names.map (fun n => ((pkt.find? (fun e => e.1 == norm n)).map (·.2)).getD .unk) :=
   packetFor_eq_spec norm d x pkt hn
+
+/-- C04_refines, loop level, proved for the query get_value: provided every packet of the item's loop stores a value for the item
+    (`hcomplete` — what the documentation promises and F30 breaks), the values cif_container_get_value sees (none: CIF_NOSUCH_ITEM,
+    one: that value, several: CIF_AMBIGUOUS_ITEM with the first) are exactly the item's column of the loop's packets in the
+    documented model, in packet order (`C04_get_value_column`: that column is the k-th entry of every packet). -/
+theorem C04_refines_get_value (d : Db) (x : LoopRow) (i : ItemRow) (h : Inv d) (hi : i ∈ d.loopItems x.cid x.loopNum)
+    (hcomplete : ∀ r ∈ d.loopRows x.cid x.loopNum, d.hasValue x.cid i.name r = true) :
+    (d.valuesOf x.cid i.name).map (·.val) = absColumn d x i :=
+  getValue_refines d x i h hi hcomplete
+
+theorem C04_get_value_column (d : Db) (x : LoopRow) (i : ItemRow) (k : Nat) (hk : (d.loopItems x.cid x.loopNum)[k]? = some i) :
+    (absLoop d x).packets.map (fun p => p.getD k .unk) = absColumn d x i :=
+  absColumn_is_column d x i k hk
 
 /-- `absLoops` is what `abs` shows as the loops of a container -/
 theorem C04_absLoops_is_abs (d : Db) (fuel cid : Nat) (code : Str) : (absContainer d (fuel + 1) cid code).loops = absLoops d cid := by
